@@ -181,7 +181,7 @@ func genC11(r *core.Rand, run int) *MuxScenario {
 			case 0:
 				op = RegOp{Kind: "regsvc", Target: "local", Service: svcMessaging}
 			case 1:
-				op = RegOp{Kind: "regconn", Target: r.PickS("b1", "b2", "b3"), Fail: r.PickS("refl:0", "refl:1", "refl:2", "refl:3", "cancel")}
+				op = RegOp{Kind: "regconn", Target: r.PickS("b1", "b2", "b3"), Fail: r.PickS("refl:0", "refl:1", "refl:2", "refl:3", "cancel", "refl:1c", "refl:2c", "refl:3c")}
 				if r.Chance(1, 2) {
 					op.Adv = [][]string{{tsvc}, {svcFiles}, {svcMessaging}, {tsvc, svcMessaging}}[r.Intn(4)]
 				}
@@ -283,7 +283,7 @@ func oracleRegistrySequential(prop string, mr *muxRun, res *RunResult) *Violatio
 			// fatal depends on how many replies this registration needs
 			// (one for the service list, then one per file request; none of
 			// the latter when nothing is advertised or nothing changed)
-			j := op.Fail[5:]
+			j := reflJ(op.Fail)
 			if !(j == "0" || j == "1" && len(rr.AdvAt) > 0) {
 				mustFail, mayFail = false, true
 			}
